@@ -679,6 +679,10 @@ func (c *fnCtx) classifyCall(x *ast.CallExpr, v *visit) string {
 		return c.classify(x.Args[0], v)
 	case isPkgCall(x, "strconv", "Itoa"), isPkgCall(x, "strconv", "FormatInt"), isPkgCall(x, "strconv", "FormatUint"):
 		return KInt
+	case isPkgCall(x, "strconv", "FormatFloat") && len(x.Args) == 4:
+		// the first argument is a float64 by Go's typing; whatever the format byte, the text consists of
+		// digits, sign, '.', exponent letters, or is one of NaN, +Inf, -Inf (model/SqlSites.v numeric_alphabet)
+		return KFloat
 	case nm == "String" && len(x.Args) == 0 && c.isBuilder(x):
 		return KBuilt
 	case nm == "String" && len(x.Args) >= 1:
